@@ -114,8 +114,7 @@ def run_config(c, cfg):
     mode = 'stochvol' if route in ('volume', 'delayvol') else 'stoch'
     net = RS.Net(sp, mode, cfg['safe'])
     x0v = [float(sp['x0'][s]) for s in sp['species']]
-    from bioscrape.simulator import ArrayDelayQueue
-    template = ArrayDelayQueue.setup_queue(len(sp['reactions']), ncols, qdt)     # every delay run works on a py_copy() of this queue
+    template = e1.TemplateQueue(len(sp['reactions']), ncols, qdt)     # every delay run works on a py_copy() of this queue
     states, outcomes = set(), set()
     first = [True]
 
@@ -167,6 +166,8 @@ def run_config(c, cfg):
         bad = e1.compare(ref, got)
         if bad:
             c.violation(pre + bad[0], bad[1], case)
+        if got.get('template_touched'):
+            c.violation(pre + 'template-touched', 'the run worked on a py_copy() of a template queue and wrote into the template itself', case)
         if route in ('delay', 'entry', 'delayvol'):
             if not bad and (got['queue'] != ref['queue'] or got['queue_next_time'] != ref['queue_next_time']):
                 c.violation(pre + 'final-queue', 'pending deliveries differ: reference %s (next %s) implementation %s (next %s)' % (
